@@ -804,6 +804,11 @@ func (vc *VC) convert(fr *Frame, st *State, x *ssa.Convert) {
 		q := fmt.Sprintf("(forall ((i %s)) (! (=> %s (= (str-at %s i) (select %s %s))) :pattern ((str-at %s i))))",
 			vc.idxSort().Name, vc.inRange("i", "(sl-len "+v.T.S+")"), r.S, arr.S, vc.idxAdd(mk("(sl-off "+v.T.S+")", vc.idxSort()), mk("i", vc.idxSort())).S, r.S)
 		vc.assume(st, mk(q, sortBool))
+		if len(vc.P.Ghosts) > 0 {
+			// content abstraction: the string's bytes are the slice's bytes (strings as keys of ghost stores and maps)
+			vc.needBytes, vc.needStr = true, true
+			vc.assume(st, tEq(mk("(str-bytes "+r.S+")", &Sort{K: SOpaque, Name: "Bytes"}), vc.bytesOf(arr, mk("(sl-off "+v.T.S+")", vc.idxSort()), mk("(sl-len "+v.T.S+")", vc.idxSort()))))
+		}
 		vc.setVal(fr, x, Val{T: r})
 	case isByteSlice(to) && isString(from):
 		ref := st.top
